@@ -113,7 +113,11 @@ def box_job(N):
         if ex.paths % 2 == 0:
             ev = evo.mk_evolvent(N, 3, a, b)
         else:                       # re-targeted object: constructed for another box, then SetBounds
-            ev = evo.mk_evolvent(N, 3, [ex.real('a_old%d' % i) for i in range(N)], [ex.real('b_old%d' % i) for i in range(N)])
+            ao = [ex.real('a_old%d' % i) for i in range(N)]
+            bo = [ex.real('b_old%d' % i) for i in range(N)]
+            for i in range(N):
+                ex.assume(ao[i].t < bo[i].t)
+            ev = evo.mk_evolvent(N, 3, ao, bo)
             ev.SetBounds(a, b)
             ex.tag('SetBounds')
         ev.yValues = evo.shims.SArr(y, 'f')
@@ -142,7 +146,9 @@ def n1_job():
         if ex.paths % 2 == 0:
             ev = evo.mk_evolvent(1, m, [a], [b])
         else:
-            ev = evo.mk_evolvent(1, m, [ex.real('a_old')], [ex.real('b_old')])
+            ao, bo = ex.real('a_old'), ex.real('b_old')
+            ex.assume(ao.t < bo.t)
+            ev = evo.mk_evolvent(1, m, [ao], [bo])
             ev.SetBounds([a], [b])
             ex.tag('SetBounds')
         y = ev.GetImage(x)
